@@ -77,9 +77,19 @@ def make_main_sampler(spec, ds):
     if kind == "kd_dist":
         from kappadata.samplers import DistributedSampler
         return DistributedSampler(ds, num_replicas=1, rank=0, shuffle=True, seed=key)
+    if kind == "kd_dist2":
+        # rank 0 of a two-rank kappadata DistributedSampler: len(sampler) is half the dataset size (its `effective_length`
+        # property reports the global length) - the scheduler works with what the sampler yields, i.e. len(sampler)
+        from kappadata.samplers import DistributedSampler
+        return DistributedSampler(ds, num_replicas=2, rank=0, shuffle=True, seed=key)
     if kind == "epoch":
         return EpochSampler(ds, key)
     raise ValueError(kind)
+
+
+def main_size(spec):
+    """size of the main dataset (== number of main indices in the scheduler's concat dataset); spec['N'] is len(main sampler)"""
+    return 2 * spec["N"] if spec["main_kind"] == "kd_dist2" else spec["N"]
 
 
 def make_config_sampler(c, ds):
@@ -89,7 +99,7 @@ def make_config_sampler(c, ds):
 def build_impl(spec, start=None):
     """real InterleavedSampler for the spec; returns (sampler, main_sampler)"""
     from kappadata.samplers import InterleavedSampler, InterleavedSamplerConfig
-    main_ds = TagDataset(spec["N"], 0)
+    main_ds = TagDataset(main_size(spec), 0)
     main = make_main_sampler(spec, main_ds)
     configs = []
     for k, c in enumerate(spec["configs"]):
@@ -113,7 +123,7 @@ def reference_run(spec, max_epochs=10000):
     set_epochs: epochs announced; epoch_ends: list of (stream_pos_after_epoch_incl_side_passes, epoch, update, sample)
     """
     N, B = spec["N"], spec["B"]
-    main = make_main_sampler(spec, TagDataset(N, 0))
+    main = make_main_sampler(spec, TagDataset(main_size(spec), 0))
     cfgs = spec["configs"]
     csamplers = [make_config_sampler(c, TagDataset(c["size"], k + 1)) for k, c in enumerate(cfgs)]
     kind, budget = spec["budget_kind"], spec["budget"]
@@ -200,7 +210,7 @@ def geometry(draw, max_n=40, small=False):
         budget = draw(st.integers(1, 4 * upe))
     else:
         budget = draw(st.integers(1, 4 * spe))
-    main_kind = draw(st.sampled_from(["seq", "epoch", "epoch", "kd_random", "kd_dist", "kd_seq"]))
+    main_kind = draw(st.sampled_from(["seq", "epoch", "epoch", "kd_random", "kd_dist", "kd_seq", "kd_dist2"]))
     return dict(N=N, B=B, drop_last=drop_last, dlbs=dlbs, budget_kind=kind, budget=budget, main_kind=main_kind,
                 main_key=draw(st.integers(0, 2 ** 16)), configs=[])
 
